@@ -1428,6 +1428,28 @@ class Flow:
                 return out if found else None
             return None
         if isinstance(e, ast.Name) and fn is not None:
+            # a module-level dict constant, named directly or as the cell of
+            # a table row the loop variable is specialised to
+            cands = []
+            if bind and ('=' + e.id) in bind:
+                cands = [a for a in bind['=' + e.id] if a.isidentifier()]
+            elif not self._is_local(e.id, fn) and e.id not in Q.params(
+                    fn.node):
+                cands = [e.id]
+            hit = False
+            for nm in cands:
+                try:
+                    r = self.repo.resolve_symbol(fn.module.name, nm)
+                except Exception:
+                    r = None
+                if r is not None and r[0] == 'value' and isinstance(
+                        r[3], ast.Dict):
+                    rr = self.record(r[3], fn, None, depth + 1, _seen)
+                    if rr is not None:
+                        merge(rr)
+                        hit = True
+            if hit:
+                return out
             if e.id in Q.params(fn.node):
                 # a mapping handed in by the caller (and possibly extended
                 # here by item assignment)
